@@ -206,7 +206,8 @@ func (P *Program) Check(opt CheckOpts) int {
 		}
 	}
 	want = func(o *Obligation) bool { return sel[o] }
-	DischargeAll(results, want, DischargeOpts{Tier: opt.Tier, TimeoutS: opt.TimeoutS, WorkDir: work, Keep: opt.Keep})
+	DischargeAll(results, want, DischargeOpts{Tier: opt.Tier, TimeoutS: opt.TimeoutS, WorkDir: work, Keep: opt.Keep,
+		Short: func(o *Obligation) bool { return P.Findings[o.Name] != nil && opt.Tier != "thorough" }})
 
 	// ---- assess ----
 	total, discharged := 0, 0
